@@ -3,3 +3,7 @@
 
 def c09_socket(ck, tier):
     ck.notes.append('socket level not built yet')
+
+
+def c10_socket(ck, tier):
+    ck.notes.append('socket level not built yet')
